@@ -39,7 +39,7 @@ def work(ctx, tier):
         ctx.inc("sweep_scenarios")
     n = (8000 if tier == "quick" else 200000) // ctx.nshards
     for k in range(n):
-        sc = gen.rand_scenario(rng, p_special=0.04, specials=("abort", "timeout"), p_budget=0.45, p_handler=0.35, p_abort=0.3, placements=(k % 4 == 0), p_abort_flag=0.25, p_exc_same=0.15, p_via_config=0.2, p_res_none=0.15, p_empty_table=0.06, falsy_objects=True, p_strategy_objects=0.3, poll_kinds=True)
+        sc = gen.rand_scenario(rng, p_special=0.04, specials=("abort", "timeout"), p_budget=0.45, p_handler=0.35, p_abort=0.3, placements=(k % 4 == 0), p_abort_flag=0.25, p_exc_same=0.15, p_via_config=0.2, p_res_none=0.15, p_empty_table=0.06, falsy_objects=True, p_strategy_objects=0.3, poll_kinds=True, slow_hooks=(k % 3 == 1), rf_time=True)
         for e in common.pick_entries(rng, rig.ENTRIES, 3):
             _one(ctx, sc, e, stats, sample=(k < 2 and ctx.shard == 0 and e.endswith("call")))
         ctx.inc("random_scenarios")
@@ -74,6 +74,8 @@ def work(ctx, tier):
                 if (hash(e) + k) % ctx.nshards == ctx.shard:
                     _one(ctx, sc, e, stats)
             ctx.inc("systematic_abort_flag_scenarios")
+    common.crossing_slice(ctx, tier, common.rng_for(ctx, "crossing"), lambda sc, e: _one(ctx, sc, e, stats))
+    common.reconfig_slice(ctx, tier, common.rng_for(ctx, "reconfig"), lambda sc, e: _one(ctx, sc, e, stats))
     if ctx.shard == 0:
         from . import hang
 
@@ -88,6 +90,8 @@ def conclude(ctx):
     for d in DYNAMIC:
         floors[f"static-true:{d}"] = (ctx.cnt.get(f"static_true:{d}", 0), 30)
     floors["hung_attempt_runs"] = (ctx.cnt["hung_attempt_runs"], 6)
+    common.crossing_floors(ctx, floors)
+    floors["reconfigured_scenarios"] = (ctx.cnt["reconfigured_scenarios"], 80)
     return dict(
         rule=(
             "sweep of outcome strings x cap grids + random scenarios (budgets, abort polls, handlers) + deadline-boundary scenarios + systematic "
